@@ -33,7 +33,7 @@ func c14Gen(tier string, rng *rand.Rand) []c13Case {
 			}
 		}
 	}
-	return cs
+	return append(cs, c14MgrGenCases(tier, rng)...)
 }
 
 func c14Probe(rng *rand.Rand, keys []uint32) []uint32 {
